@@ -128,7 +128,8 @@ def check(run):
         for k in range(6 if quick else 30):
             p = os.path.join(work, "synth%d.json_solc" % k)
             docgen.dump(docgen.document(rng.getrandbits(32), nblocks=rng.randint(3, 10), ncontracts=1 + (k % 3 == 0),
-                                        with_noasm=(k % 2 == 0), max_len=18), p)
+                                        with_noasm=(k % 2 == 0), max_len=18, multi_data=(k % 2 == 1), twin=(k % 3 == 1),
+                                        failing=(k % 4 == 3)), p)
             inputs.append(p)
         optsets = [["-greedy"], ["-greedy", "-size", "-storage"], ["-greedy", "-push0", "-partition"]] if quick else \
             [["-greedy"], ["-greedy", "-size"], ["-greedy", "-storage"], ["-greedy", "-partition", "-length"], ["-greedy", "-push0"],
